@@ -32,14 +32,22 @@ L1_NBR = ["RModel.BSet.nextValue_some", "RModel.BSet.nextValue_none", "RModel.BS
 L1_XFORM = ["RModel.BSet.mem_shift", "RModel.BSet.canon_shift", "RModel.BSet.mem_flipRange", "RModel.BSet.canon_xor"]
 
 PROPS = {
-    "C01": {"suites": [("alg", 1.0)], "theorems": L1_ALGEBRA,
-            "owns": {"and", "or", "xor", "andnot", "iand", "ior", "ixor", "iandnot", "andcard", "orcard", "isect", "eq", "dig"}},
+    "C01": {"suites": [("alg", 1.0), ("kern", 0.3), ("popcnt", 1.0)], "theorems": L1_ALGEBRA,
+            "owns": {"and", "or", "xor", "andnot", "iand", "ior", "ixor", "iandnot", "andcard", "orcard", "isect", "eq", "dig",
+                     "kern", "popcnt"}},
     "C02": {"suites": [("hist", 1.0)], "theorems": L1_MUT + L1_ALGEBRA[:3],
             "owns": {"new", "add", "cadd", "addint", "addmany", "rem", "crem", "addr", "remr", "flip", "clear", "opt", "clone",
                      "cowclone", "detach", "setcow", "dig", "card", "empty", "of"}},
-    "C03": {"suites": [("query", 1.0)], "theorems": L1_QUERY,
-            "owns": {"card", "empty", "has", "min", "max", "rank", "sel", "cir", "iwi", "eq", "toarr", "toexarr", "chkeq", "dig"}},
-    "C15": {"suites": [("nbr", 1.0)], "theorems": L1_NBR, "owns": {"nv", "pv", "nav", "pav"}},
+    "C03": {"suites": [("query", 1.0), ("kernq", 0.3)], "theorems": L1_QUERY,
+            "owns": {"card", "empty", "has", "min", "max", "rank", "sel", "cir", "iwi", "eq", "toarr", "toexarr", "chkeq", "dig", "kern"}},
+    "C05": {"suites": [("ser", 1.0)], "theorems": ["RModel.BSet.canon_ext"],
+            "owns": {"ser", "rd", "wrfail", "trunc", "wf", "dig", "add", "or"}},
+    "C06": {"suites": [("spec", 1.0)], "theorems": ["RModel.BSet.canon_ext"], "owns": {"spec", "ser", "card", "toarr"}},
+    "C09": {"suites": [("hist", 1.0), ("alg", 0.7), ("xform", 0.7), ("ser", 0.5), ("kernwf", 1.0)], "theorems": ["RModel.BSet.canon_ext"],
+            "owns": {"wf", "kernwf"}},
+    "C10": {"suites": [("fuzzdec", 1.0)], "theorems": ["RModel.BSet.canon_ext"], "owns": None},
+    "C14": {"suites": [("hist", 1.0), ("alg", 0.7), ("xform", 0.5)], "theorems": ["RModel.BSet.canon_ext"], "owns": {"size"}},
+    "C15": {"suites": [("nbr", 1.0), ("kernq", 0.3)], "theorems": L1_NBR, "owns": {"nv", "pv", "nav", "pav", "kern"}},
     "C16": {"suites": [("xform", 1.0)], "theorems": L1_XFORM, "owns": {"off", "off32", "sflip", "eq"}},
 }
 
